@@ -546,13 +546,18 @@ def conditions(prog, fn, bb, unwind=False):
         t = fn.blocks[s]['term']
         if t['k'] != 'switch':
             continue
-        arms = g.switch_arms_reaching(s, [bb])
+        arms = g.switch_arms_reaching(s, [bb], avoid=(s,))
         yes = [a for a in arms if a[2]]
         no = [a for a in arms if not a[2]]
         if not no:
             continue
         e, kind, labels, adt = switch_info(prog, fn, s)
-        lab = lambda a: labels.get(a[0], a[0])
+        def lab(a, labels=labels, arms=arms, kind=kind):
+            if a[0] == 'otherwise' and kind == 'enum' and labels:
+                listed = {labels.get(x[0], x[0]) for x in arms if x[0] != 'otherwise'}
+                rest = sorted(str(v) for v in set(labels.values()) - listed)
+                return '|'.join(rest) if rest else 'otherwise'
+            return labels.get(a[0], a[0])
         out.append({'bb': s, 'expr': e, 'kind': kind, 'adt': adt,
                     'taken': [lab(a) for a in yes], 'not_taken': [lab(a) for a in no]})
     return out
@@ -571,7 +576,10 @@ def cond_exprs(prog, fn, bb):
             else:
                 res.append(('unknown', 'bool-switch'))
         elif c['kind'] == 'enum':
-            res.append(('is', c['expr'], tuple(sorted(map(str, c['taken'])))))
+            labs = []
+            for t in c['taken']:
+                labs.extend(str(t).split('|'))
+            res.append(('is', c['expr'], tuple(sorted(labs))))
         else:
             res.append(('switch', c['expr'], tuple(map(str, c['taken']))))
     return res
